@@ -30,13 +30,24 @@ def _env():
             major, minor = [int(x) for x in blob.data_stream.read().decode().strip().split('.')]
             return BuildNumData(major, minor, None)
 
+    class LibS(LibV):
+        """component whose builds are detected by a bump of the number saved in its VERSION file (no build tags)"""
+        def make_builds_detector(self):
+            from ak.ghist import RepoBuildsBySavedBuildNumDetector
+            return RepoBuildsBySavedBuildNumDetector(self)
+
+        def _read_saved_build_num_from_file(self, blob, path):
+            from ak.ghist import BuildNumData
+            major, minor, patch = [int(x) for x in blob.data_stream.read().decode().strip().split('.')]
+            return BuildNumData(major, minor, patch)
+
     class App(ProjectRepo):
         _COMPONENTS_VERSIONS_LOCATIONS = {'lib': 'DEPENDS'}
 
         def read_components_from_file(self, v_file_path, blob):
             d = json.load(blob.data_stream)
             return {k: [int(x) for x in v.split('.')] for k, v in d.items()}
-    _ENV.update(Lib=Lib, LibV=LibV, App=App, ReposCollection=ReposCollection, RBuild=RBuild, ProjectRepo=ProjectRepo)
+    _ENV.update(Lib=Lib, LibV=LibV, LibS=LibS, App=App, ReposCollection=ReposCollection, RBuild=RBuild, ProjectRepo=ProjectRepo)
     return _ENV
 
 
@@ -48,13 +59,20 @@ def observe(case):
     e = _env()
     ck = case['ck']
     # vfile: the component's version 1.<minor> is kept in its VERSION file and changes from commit to commit
-    vfile = bool(case.get('vfile'))
-    minor = (lambda c: c) if vfile else (lambda c: 0)
+    vfile = case.get('vfile') == 1
+    saved = case.get('vfile') == 2        # builds = bumps of the saved number: 1.0.<100 + 2c> at a build commit c,
+    minor = (lambda c: c) if vfile else (lambda c: 0)     # the newest number of the parents otherwise
+    if saved:
+        num = {}
+        for c in range(1, ck + 1):
+            num[c] = 100 + 2 * c if case['ctagged'][c - 1] else max(num[p] for p in case['cparents'][c - 1])
     lib_commits = {c: (sorted(case['cparents'][c - 1], reverse=(c % 2 == 0)), ('BUG-7 lib %d' % c) if case['cmatch'][c - 1] else 'lib other %d' % c,
-                       {'VERSION': '1.%d\n' % minor(c)} if vfile else {})
+                       {'VERSION': '1.%d\n' % minor(c)} if vfile else ({'VERSION': '1.0.%d\n' % num[c]} if saved else {}))
                    for c in range(1, ck + 1)}
     lib_tags = {_tag(c, False, vfile): c for c in range(1, ck + 1) if case['ctagged'][c - 1] >= 1}
     lib_tags.update({_tag(c, True, vfile): c for c in range(1, ck + 1) if case['ctagged'][c - 1] == 2})
+    if saved:
+        lib_tags = {}
     lib = ghmock.Repo('lib', lib_commits, lib_tags, {'master': ck}, time_step=600)
     h = case['h']
     app_commits, app_tags = {}, {}
@@ -66,7 +84,7 @@ def observe(case):
             app_tags[_tag(c)] = c
     app = ghmock.Repo('app', app_commits, app_tags, dict(h['head']), time_step=600)
     order = case.get('supply', 0)
-    repos = [('lib', e['LibV' if vfile else 'Lib']('lib', lib, 'origin')), ('app', e['App']('app', app, 'origin'))]
+    repos = [('lib', e['LibS' if saved else ('LibV' if vfile else 'Lib')]('lib', lib, 'origin')), ('app', e['App']('app', app, 'origin'))]
     if order:
         repos.reverse()
     coll = e['ReposCollection'](dict(repos))
@@ -89,6 +107,8 @@ def observe(case):
             if rbuild.build_type != e['RBuild'].NORMAL or rbuild.build_num.is_fake_not_built():
                 continue
             cb = rbuild.rcommit.commit.intid
+            if saved and not case['ctagged'][cb - 1]:
+                continue          # an unbuilt head carries the saved number of an earlier build; it is not a build
             items = set()
             for repo_id, br, bn in rbuild.included_at:
                 if repo_id != 'app':
@@ -209,6 +229,13 @@ def run(ctx):
     for i, c in enumerate(cases):
         c['supply'] = i % 2
         c['vfile'] = (i // 2) % 2         # how the component's builds get their major.minor: tag text / VERSION file
+        # third way: no tags, a build is a bump of the saved number (needs: one build per commit, roots are builds,
+        # every merge is a build - a merge that keeps a parent's number would carry the number of a build that does
+        # not contain all its ancestors, which the property does not speak about)
+        roots_built = all(c['ctagged'][k] for k in range(c['ck']) if not c['cparents'][k])
+        no_plain_merge = all(c['ctagged'][k] or len(c['cparents'][k]) <= 1 for k in range(c['ck']))
+        if (i // 4) % 2 and roots_built and no_plain_merge and all(x <= 1 for x in c['ctagged']) and not any(c['pin2']):
+            c['vfile'] = 2
     res = pmap(_job, cases, chunk=100)
     for c, prob in zip(cases, res):
         if prob:
